@@ -71,7 +71,7 @@ def gen_dup(g, rng):
             break
     op = {"op": "dup", "o": src, "how": how}
     if how == "pickle":
-        op["proto"] = rng.randint(2, 5)
+        op["proto"] = rng.randint(0, 5)
     return g.emit(op, scope=list(g.scope_of(src) or g.scope_of(i)))
 
 
@@ -373,7 +373,7 @@ def restart_task(seed, run):
         return None
     if lib.state(o).get("immutable", True) is False:
         return None  # mutable-mode chains are judged in-process only
-    proto = rr.randint(2, 5)
+    proto = rr.randint(0, 5)
     try:
         blob = pickle.dumps(o, protocol=proto)
     except Exception as e:  # noqa: BLE001
@@ -598,7 +598,7 @@ def evidence(agg, tier, seed, wall):
         "evaluations": agg["runs"],
         "distinct_nontrivial": len(agg["nontrivial_shapes"]),
         "rule": "one evaluation = one simulated run: 3-24 ops mixing builder calls and duplication events "
-                "(copy.copy / copy.deepcopy / pickle protocols 2-5) over a shared heap, original and duplicate both "
+                "(copy.copy / copy.deepcopy / pickle protocols 0-5) over a shared heap, original and duplicate both "
                 "live receivers; sequential, with asynchronous exceptions inside duplication, or under 2-4 scheduled "
                 "threads; a subset is also restarted (pickled object restored in a fresh interpreter with another "
                 "PYTHONHASHSEED, script continued there). distinct = distinct op-log shapes; non-trivial = the run has "
